@@ -22,6 +22,8 @@ func init() {
 		rules.FirstMatchLoops(p, r)
 		rules.AdminNeverSelectsIP(p, r)
 		rules.AdminRuleIterationSiblings(p, r, "C02-sib")
+		rules.LoopCarriedDefaults(p, r, "C02-loop")
+		rules.SliceShrinkByIdentity(p, r, "C02-shrink")
 		r.Assume("ANPRulesResult is an iota enumeration whose zero value is NotCaptured (re-checked: the rule looks for `verdict == 0`-valued constants)")
 	})
 }
